@@ -117,6 +117,8 @@ func rulesC18(w *World, r *Report) {
 	rulePrintFileDataHeader(w, r, "C18.R3")
 	if ve := need(w, r, "C18.R3", w.Cmd, "ViewCommand.execute"); ve != nil {
 		ruleUntilDefault(w, r, "C18.R3", ve, []*ssa.Function{fn(w.Cmd, "readWhisperFile")})
+		ruleClockUnmodified(w, r, "C18.R3", regexp.MustCompile(`^cmd\.View(Raw)?Command\.`))
+		ruleTextOutKeepsWholeLines(w, r, "C18.R3")
 		ruleParseWindowCheck(w, r, "C18.R3", "ViewCommand")
 		c, n := singleCall(ve, func(c *ssa.Call) bool { return c.Common().StaticCallee() == fn(w.Cmd, "printFileData") })
 		ok := n == 1
